@@ -19,12 +19,16 @@ def fill(claim, NA):
 			   "arbitrary inputs; Props/Net.lean and Props/NetBO.lean lift them to WHOLE NETWORKS (any number of nodes, any history, every reachable state) by "
 			   "projecting one period of the model onto an edge / a node (step_edge_internal) and induction over the history, under executable hypotheses "
 			   "(netWFb, initOKb, VisitOK, non-negative demands) that the driver evaluates on every generated network and the evidence counts. "
-			   "Network-level conservation totals (C01) and arrival exactness remain at edge level + correspondence. "
+			   "Arrival exactness (a unit ordered at t is received exactly OLT+SLT periods later) remains at pipeline level (orders_arrive, shiftPipe_get) + correspondence. "
 			   "Multi-product BOM shares, cost functions, order_quantity_override and BEBS are outside the model.")
 	claim('C01',
 		  "Theorems (Props/C01.lean): every kernel that moves units conserves them for all inputs: receipt (recvShip_conserves), production bound "
 		  "(producible_le), propagation into the customer's pipeline, order placement (internal / external supplier), next-period carry-over "
-		  "(nextEdge_conserves, pipeline shift and TP freeze preserve totals) and the composed one-period theorem for an internal edge "
+		  "(nextEdge_conserves, pipeline shift and TP freeze preserve totals), NETWORK LEVEL (Props/NetFlow.lean): node_balance_step, edge_flow_step and "
+		  "conservation_network - along the WHOLE trajectory the simulator reports, for every well-formed network of any size, every node satisfies IL_t = IL_{t-1} + produced_t - "
+		  "orders received_t and, per supplier, RM_t = RM_{t-1} + receipt_t - produced_t, and every internal edge satisfies shipped = received + change of (in transit + held at the door) "
+		  "and ordered = shipped + change of (backordered + held); together with C02's bo_matches_il_network these are the conservation laws for whole networks (external-supplier / "
+		  "external-customer edges remain at edge level); and the composed one-period theorem for an internal edge "
 		  "edge_period_conserves: for ANY order quantity, on-hand and disruption flags, shipped = received + in transit + held at door, and ordered = "
 		  "shipped + backordered + held. Tie: exact trajectory correspondence (13 conservation-relevant fields incl. the ghost 'produced' quantity "
 		  "recorded by wrapping _raw_materials_to_finished_goods) + the five conservation identities evaluated on every Python trace.", SIMNOTE)
